@@ -59,21 +59,10 @@ pub fn check() -> PropertyCheck {
             "the in-flight window is asserted as the statement gives it (ttl - farthest answered <= max-inflight)",
             "SimSocket models the socket layer",
         ],
-        subs: vec![Box::new(Pbt {
-            name: "schedule",
-            quick: 60_000,
-            thorough: 3_000_000,
-            strat,
-            test,
-            max_shrink: 3000,
-        }),
-        Box::new(Pbt {
-            name: "schedule-faults",
-            quick: 40_000,
-            thorough: 1_500_000,
-            strat: super::c10::fault_strat,
-            test: faults_test,
-            max_shrink: 3000,
-        })],
+        subs: {
+            let schedule = Pbt { name: "schedule", quick: 60_000, thorough: 3_000_000, strat, test, max_shrink: 3000 };
+            let faults = Pbt { name: "schedule-faults", quick: 40_000, thorough: 1_500_000, strat: super::c10::fault_strat, test: faults_test, max_shrink: 3000 };
+            vec![Box::new(schedule), Box::new(faults)]
+        },
     }
 }
